@@ -192,13 +192,16 @@ bool exec_str_a(Ctx &c, const Op &op) {
         if (variant == 1) { static const unsigned K[] = {SK_PTRLEN, SK_CBUF_L, SK_CBUF_R}; kind = K[kind % 3]; }
         if (variant == 2) { static const unsigned K[] = {SK_CSTR, SK_PTRLEN, SK_CBUF_L}; kind = K[kind % 3]; }
         if (kind % SK__COUNT == SK_STR_COPY || kind % SK__COUNT == SK_STR_MOVE || kind % SK__COUNT == SK_NULL) kind = SK_PTRLEN;
-        Op o2 = op; if (variant) o2.fault &= ~F_CORRUPT;     // unvalidated factories get clean data
+        Op o2 = op; if (variant == 2) o2.fault &= ~F_CORRUPT;     // from_latin_1: every byte string is valid input
+        // from_validated takes the caller's word for it: malformed bytes are legal input here and are stored as they are (every other call
+        // hands it some) - this is how a pool string comes to hold bytes that a later validating operation would reject
+        if (variant == 1 && ((op.d >> 14) & 1) == 0 && !(o2.fault & F_CORRUPT)) { o2.fault |= F_CORRUPT; o2.fc = (op.b * 2654435761u) >> 8; }
         if (!prepare_text(c, o2, kind, op.b, op.c, op.d >> 8, false, A)) { c.skipped = true; return true; }
-        if (variant == 1 && !A.wf) { c.skipped = true; return true; }
         note_sig(c, op, std::string(variant == 1 ? "validated:" : variant == 2 ? "latin1:" : "") + A.kind_name() + ",in=" + A.cls + (A.wf ? "" : ",invalid"));
         c.budget_bytes = A.in_bytes * 3;
         arg_roles(c, A, nullptr);
         std::string expect = A.expect; bool wf = A.wf;
+        if (variant == 1) { expect = A.kind == SK_PTRLEN ? A.n8 : A.b8->model; wf = true; }      // stored unvalidated, never throws
         if (variant == 2) { expect = latin1_ref(A.kind == SK_CBUF_L ? A.b8->model : A.n8); wf = true; }
         void *mem = obj_alloc(sizeof(ST::string));
         const bool m = A.explicit_mode;
